@@ -64,6 +64,9 @@ func runC10(c *core.Ctx) {
 		caseID := fmt.Sprintf("%s/h%d", c.Mode, hi)
 		t := dyn.Types[r.Intn(dyn.NBuiltin)]
 		al := signal.Allocator{Channels: r.Range(1, 8), Capacity: r.Pick(1, 2, 3, r.Range(4, 32))}
+		if hi%9 == 8 {
+			al.Capacity = r.Range(300, 1200) // large buffers: paths that depend on the size
+		}
 		switch r.Intn(3) {
 		case 0:
 			al.Length = 0
